@@ -43,8 +43,10 @@ def _arm():
 
 
 def iu():
+    # every evaluation is the second call with the same arguments (see inputs.second_call): results must not depend
+    # on earlier calls or on what the caller did with an earlier result
     from boltons import iterutils
-    return iterutils
+    return inputs.SecondCallModule(iterutils)
 
 
 def call(f, *a, **k):
